@@ -15,7 +15,9 @@ fn corrupt(rng: &mut Rng, line: &str) -> (String, &'static str) {
         let ch = *rng.pick(&["盆", "é", "😀", "栽"]);
         let lo = if rng.chance(0.7) { 40usize.min(l.len()) } else { 0 };
         let hi = if lo > 0 { 80usize.min(l.len()) } else { l.len() };
-        let at = if hi > lo { rng.range(lo, hi) } else { lo };
+        let mut at = if hi > lo { rng.range(lo, hi) } else { lo };
+        // (a line corrupted a second time may already hold multi-byte characters)
+        while at > 0 && !l.is_char_boundary(at) { at -= 1; }
         let mut s = String::with_capacity(l.len() + 8);
         s.push_str(&l[..at]);
         s.push_str(ch);
